@@ -369,3 +369,38 @@ def macro_callable(env, template_name, macro_name):
 
 
 SERVICE_DIR = "%namespace/%name_%version/%sub/services/%service/"
+
+
+def expr_path(node):
+    """Dotted source of a Jinja Name/Getattr chain (None for anything else)."""
+    if isinstance(node, nodes.Name):
+        return node.name
+    if isinstance(node, nodes.Getattr):
+        base = expr_path(node.node)
+        return None if base is None else f"{base}.{node.attr}"
+    return None
+
+
+def if_branches(if_node):
+    """[(test path or 'else', body)] of an if/elif/else chain."""
+    out = [(expr_path(if_node.test), if_node.body)]
+    for e in if_node.elif_:
+        out.append((expr_path(e.test), e.body))
+    if if_node.else_:
+        out.append(("else", if_node.else_))
+    return out
+
+
+def find_branch(root, test_path):
+    """Body of the first if/elif branch under `root` whose test is exactly the attribute chain `test_path`."""
+    for n in root.find_all(nodes.If):
+        for t, body in if_branches(n):
+            if t == test_path:
+                return body
+    return None
+
+
+def render_nodes(env, tree, body, params, maxlen=2, fixed=None):
+    """Render a list of Jinja nodes as a region with the given parameter names bound to Sym proxies of the same name."""
+    mac = compile_macro(env, tree, params, body)
+    return explore(lambda: str(mac(*[Sym(p) for p in params])), maxlen=maxlen, fixed=fixed)
